@@ -64,7 +64,11 @@ def clean_composite_curve_ends(
     """Remove redundant points in composite curves."""
     y_vals = np.array(y_vals)
     x_vals = np.array(x_vals)
-    
+
+    if x_vals.size == 0 or np.all(np.isnan(x_vals)):
+        # column that was never populated (e.g. balanced curves switched off): no curve
+        return np.array([]), np.array([])
+
     if np.all(np.isclose(x_vals, 0.0, atol=tol)) or np.abs(x_vals.var()) < tol:
         return np.array([]), np.array([])
     
